@@ -317,14 +317,21 @@ def run(prog: Program, res: Result, tier: str) -> None:
                         f"(pack∘unpack identity: {ok1}, unpack∘pack identity: {ok2})", construct=key, key=key)
 
     # R3 dispatch exhaustiveness + R4 guards, for both wrappers
+    from ..cfg import simple_paths
+    from ..pathcond import path_conditions, rejection, split
+    from ..normalform import canon
     for wname, prefix in (("unpack", "unpack"), ("pack", "pack")):
         w = prog.func(BMOD, wname)
         flow = flow_of(w)
         cfg = flow.cfg
+        pc = path_conditions(flow)
+        params = [p for p in w.params]
+        arr_p, buf_p = params[0], (params[2] if len(params) > 2 else None)
         getattrs = [c for c in calls_in_body(w.node) if dotted(c.func) == "getattr" and len(c.args) >= 2]
         if len(getattrs) != 1:
             raise AnalysisError(f"{w.ident}: expected exactly one getattr dispatch")
         ga = getattrs[0]
+        gan = cfg.node_for(ga)
         tgt_mod = ga.args[0]
         r = prog.resolve_name(dotted(tgt_mod) or "", w.module)
         if not (isinstance(r, tuple) and r[0] == "module" and r[1].name == KMOD):
@@ -334,18 +341,46 @@ def run(prog: Program, res: Result, tier: str) -> None:
         if not isinstance(fs, ast.JoinedStr):
             res.bad("R3", w, ga, "dispatch name is not an f-string template", key=wname)
             continue
-        # expand the template over the value sets the guards allow
-        nb_vals = _guard_set(w, "nbits")
-        ord_name = None
+
+        def in_set(var: str):
+            """predicate: `var in {literals}` is known; the literal set is left in in_set.values"""
+            def pred(e, pol):
+                if isinstance(e, ast.Compare) and len(e.ops) == 1 and norm(e.left) == var and \
+                        ((isinstance(e.ops[0], ast.In) and pol) or (isinstance(e.ops[0], ast.NotIn) and not pol)):
+                    try:
+                        pred.values = set(ast.literal_eval(e.comparators[0]))
+                    except Exception:
+                        return False
+                    return True
+                return False
+            pred.values = None
+            return pred
+
+        # the template's fields: nbits from the membership guard, the order string from the conditional that defines it
+        nb_pred = in_set("nbits")
+        nb_fact = pc.truth(ga, nb_pred)
+        nb_vals = nb_pred.values if nb_fact is not None else None
         parts = []
+        ord_vals = None
         for v in fs.values:
             if isinstance(v, ast.Constant):
                 parts.append(("lit", v.value))
+            elif dotted(v.value) == "nbits":
+                parts.append(("var", "nbits"))
             else:
-                parts.append(("var", dotted(v.value)))
-                if dotted(v.value) != "nbits":
-                    ord_name = dotted(v.value)
-        ord_vals = _ifexp_values(flow, w, ord_name, cfg.node_for(ga)) if ord_name else None
+                parts.append(("var", "order"))
+                ex = flow.expand(v.value, gan)
+                leaves = []
+
+                def collect(e):
+                    if isinstance(e, ast.IfExp):
+                        collect(e.body)
+                        collect(e.orelse)
+                    else:
+                        leaves.append(e)
+                collect(ex)
+                if leaves and all(isinstance(l, ast.Constant) and isinstance(l.value, str) for l in leaves):
+                    ord_vals = {l.value for l in leaves}
         if nb_vals is None or ord_vals is None:
             res.bad("R3", w, ga, "cannot determine the finite value sets of the dispatch template", key=wname)
             continue
@@ -361,58 +396,101 @@ def run(prog: Program, res: Result, tier: str) -> None:
             res.bad("R3", w, ga, f"dispatch produces {sorted(names)}, expected {expected}", key=wname)
         else:
             res.ok("R3", w, ga, f"dispatch f-string expands to the 6 kernels {expected}, all defined", key=wname)
-        # the kernel call: the getattr result called with (array, buffer)
-        kcalls = [c for c in calls_in_body(w.node) if isinstance(c.func, ast.Name) and any(
-            d.value is ga for d in flow.reaching(c.func.id, cfg.node_for(c)))]
+        # the kernel call: the getattr result called with (array, buffer), through a name or directly
+        kcalls = [c for c in calls_in_body(w.node) if c.func is ga or (isinstance(c.func, ast.Name) and any(
+            d.value is ga for d in flow.reaching(c.func.id, cfg.node_for(c))))]
         if len(kcalls) != 1:
             res.bad("R3", w, ga, "the dispatched kernel is not called exactly once", key=wname + ":call")
             continue
         kc = kcalls[0]
         kn = cfg.node_for(kc)
-        # R4 guards
-        guards = _raise_guards(w)
-        wanted = {
-            "dtype": lambda t: "dtype" in t and "uint8" in t,
-            "nbits": lambda t: "nbits" in t and ("not in" in t or "in" in t),
-            "bitorder": lambda t: "bitorder" in t,
-            "size": lambda t: ".size" in t and "bitfact" in t and "%" not in t,
-        }
-        for gname, pred in wanted.items():
-            hit = [g for g in guards if pred(norm(g.test))]
+
+        # R4 guards: what is known whenever the kernel runs, and that failing it raises ValueError
+        def is_u8(name):
+            def pred(e, pol):
+                if not (isinstance(e, ast.Compare) and len(e.ops) == 1):
+                    return False
+                sides = {norm(e.left), norm(e.comparators[0])}
+                return f"{name}.dtype" in sides and bool(sides & {"np.uint8", "'uint8'", "np.dtype('uint8')"}) and \
+                    ((isinstance(e.ops[0], ast.Eq) and pol) or (isinstance(e.ops[0], ast.NotEq) and not pol))
+            return pred
+
+        def order_letter(e, pol):
+            return isinstance(e, ast.Compare) and len(e.ops) == 1 and norm(e.left) in ("bitorder[0]", "bitorder[:1]") and \
+                ((isinstance(e.ops[0], ast.In) and pol) or (isinstance(e.ops[0], ast.NotIn) and not pol))
+
+        def order_given(e, pol):
+            return norm(e) == "bitorder" and pol
+
+        wanted = {"dtype": [is_u8(arr_p)], "nbits": [in_set("nbits")], "bitorder": [order_given, order_letter]}
+        for gname, preds in wanted.items():
             key = f"{wname}:{gname}"
-            if not hit:
-                res.bad("R4", w, w.node, f"{wname}: no ValueError guard on {gname}", construct=wname, key=key)
+            facts = [pc.truth(kc, p) for p in preds]
+            if any(f is None for f in facts):
+                res.bad("R4", w, w.node, f"{wname}: no ValueError guard on {gname} protects the kernel call", construct=wname, key=key)
+            elif all("ValueError" in (rejection(pc, f) or ()) for f in facts):
+                res.ok("R4", w, kc, f"the kernel runs only when {' and '.join(f.text() for f in facts)}; otherwise ValueError", key=key)
+            else:
+                res.bad("R4", w, kc, f"{wname}: guard on {gname} does not protect the kernel call (not dominating or not raising ValueError)", key=key)
+        # size: on every path to the kernel the buffer is either allocated here with the exact element count (uint8), or its size was
+        # compared (==) with that count
+        count_src = f"{arr_p}.size * (8 // nbits)" if prefix == "unpack" else f"{arr_p}.size // (8 // nbits)"
+        want_count = canon(count_src)
+        key = f"{wname}:size"
+        allocs = [s_ for s_ in body_walk(w.node) if isinstance(s_, ast.Assign) and isinstance(s_.value, ast.Call)
+                  and dotted(s_.value.func) in ("np.zeros", "np.empty") and len(s_.targets) == 1 and norm(s_.targets[0]) == (buf_p or "?")]
+        ok_size = True
+        why = ""
+        for path in simple_paths(cfg, cfg.entry, {kn}):
+            alloc_here = [a_ for a_ in allocs if cfg.node_for(a_) in path]
+            if alloc_here:
+                a_ = alloc_here[-1].value
+                kw = {k.arg: k.value for k in a_.keywords}
+                shape = kw.get("shape") or (a_.args[0] if a_.args else None)
+                dt = kw.get("dtype") or (a_.args[1] if len(a_.args) > 1 else None)
+                if shape is None or canon(flow.expand(shape, cfg.node_for(alloc_here[-1]))) != want_count or dt is None or norm(dt) not in ("np.uint8", "'uint8'"):
+                    ok_size, why = False, "the default buffer is not np.uint8 of exactly the element count"
                 continue
-            g = hit[0]
-            gn = cfg.node_for(g)
-            if gname == "size":
-                # size guard sits on the caller-supplied-buffer branch; the None branch allocates the right size
-                ok = _size_branch_ok(w, g, prefix)
-                msg = ("buffer size is checked with == against the exact element count on the supplied-buffer path and "
-                       "the default path allocates that same count")
-            else:
-                ok = cfg.dominates(gn, kn)
-                msg = f"guard `{norm(g.test)}` dominates the kernel call"
-            if ok and _raises_value_error(g):
-                res.ok("R4", w, g, msg, key=key)
-            else:
-                res.bad("R4", w, g, f"{wname}: guard on {gname} does not protect the kernel call (not dominating, not "
-                        f"an exact size test, or not raising ValueError)", key=key)
+            checked = False
+            for a_n, b_n in zip(path, path[1:]):
+                st_ = cfg.ast[a_n]
+                lab = cfg.edge_label(a_n, b_n)
+                if cfg.kind[a_n] == "test" and isinstance(st_, ast.If) and lab in ("true", "false"):
+                    for e_, pol_ in split(st_.test, lab == "true"):
+                        if isinstance(e_, ast.Compare) and len(e_.ops) == 1 and ((isinstance(e_.ops[0], ast.Eq) and pol_) or (isinstance(e_.ops[0], ast.NotEq) and not pol_)):
+                            l_, r_ = canon(flow.expand(e_.left, a_n)), canon(flow.expand(e_.comparators[0], a_n))
+                            if {l_, r_} == {f"{buf_p}.size", want_count}:
+                                checked = True
+            if not checked:
+                ok_size, why = False, "a supplied buffer reaches the kernel without an == test of its size against the element count"
+        if ok_size:
+            res.ok("R4", w, kc, "buffer size is checked with == against the exact element count on the supplied-buffer path and "
+                   "the default path allocates that same count", key=key)
+        else:
+            res.bad("R4", w, kc, f"{wname}: {why}", key=key)
         # no other guard may reject an input the property says is valid
-        known = list(wanted.values())
-        for g in guards:
-            t = norm(g.test)
-            if any(pred(t) for pred in known):
-                continue
-            key = f"{wname}:extra-guard:{t[:40]}"
-            if t in ("array.size % bitfact != 0", "array.size % bitfact"):
-                res.ok("R4", w, g, "ragged input (not a whole number of bytes) is rejected explicitly", key=key)
-            else:
-                res.bad("R4", w, g, f"{wname}: an additional guard `{t}` raises for inputs that are valid by the property (every dtype-uint8 array of "
-                        f"in-range samples whose size is a multiple of 8/nbits must round-trip)", key=key)
+        for g in _raise_guards(w):
+            for e_, pol_ in split(g.test, False):
+                # passing the guard requires e_ == pol_
+                known = any(p(e_, pol_) for ps in wanted.values() for p in ps) or in_set("nbits")(e_, pol_)
+                t = norm(e_)
+                if known:
+                    continue
+                key = f"{wname}:extra-guard:{t[:40]}"
+                sizes = isinstance(e_, ast.Compare) and len(e_.ops) == 1 and ".size" in t and "%" not in t
+                ragged = t.replace(" ", "") in (f"{arr_p}.size%bitfact", f"{arr_p}.size%bitfact==0", f"{arr_p}.size%bitfact!=0")
+                domain = (".ndim" in t) or (buf_p is not None and is_u8(buf_p)(e_, pol_)) or (t == f"{buf_p} is None") or \
+                    (isinstance(e_, ast.Call) and dotted(e_.func) == "isinstance")
+                if sizes:
+                    continue
+                if ragged:
+                    res.ok("R4", w, g, "ragged input (not a whole number of bytes) is rejected explicitly", key=key)
+                elif domain:
+                    res.ok("R4", w, g, f"additional guard `{t}` only rejects input outside the property's domain (dimension / buffer type)", key=key)
+                else:
+                    res.bad("R4", w, g, f"{wname}: an additional guard `{t}` raises for inputs that are valid by the property (every dtype-uint8 array of "
+                            f"in-range samples whose size is a multiple of 8/nbits must round-trip)", key=key)
         # same result with and without a supplied buffer: the kernel call post-dominates both branches
-        allocs = [s for s in body_walk(w.node) if isinstance(s, ast.Assign) and isinstance(s.value, ast.Call)
-                  and dotted(s.value.func) in ("np.zeros", "np.empty")]
         key = f"{wname}:buffer"
         if len(allocs) == 1 and cfg.must_pass(cfg.entry, cfg.exit, {kn}):
             res.ok("R4", w, allocs[0], "both buffer paths reach the same kernel call, which assigns every output element", key=key)
@@ -447,8 +525,9 @@ def run(prog: Program, res: Result, tier: str) -> None:
                 nsite += 1
                 kw = {k.arg: k.value for k in c.keywords}
                 nb = c.args[1] if len(c.args) > 1 else kw.get("nbits")
-                okb = kw.get("bitorder") is not None and norm(kw["bitorder"]) == "self.bitsinfo.bitorder"
-                okn = nb is not None and norm(nb) == "self.bitsinfo.nbits"
+                ff = flow_of(f)
+                okb = kw.get("bitorder") is not None and norm(ff.expand(kw["bitorder"], ff.cfg.node_for(c))) == "self.bitsinfo.bitorder"
+                okn = nb is not None and norm(ff.expand(nb, ff.cfg.node_for(c))) == "self.bitsinfo.nbits"
                 key = f"{f.qualname}:{dotted(c.func)}"
                 if okb and okn:
                     res.ok("R5", f, c, "depth and bit order both come from the stream's BitsInfo", key=key)
